@@ -9,4 +9,14 @@ require (
 	github.com/klauspost/compress v1.18.0
 )
 
+require (
+	github.com/bufbuild/protocompile v0.14.1 // indirect
+	github.com/google/uuid v1.6.0 // indirect
+	golang.org/x/crypto v0.37.0 // indirect
+	golang.org/x/mod v0.24.0 // indirect
+	golang.org/x/sys v0.32.0 // indirect
+	google.golang.org/protobuf v1.36.6 // indirect
+	gopkg.in/yaml.v3 v3.0.1 // indirect
+)
+
 replace github.com/bufbuild/buf => /repo
